@@ -311,4 +311,7 @@ var Controls = []Control{
 	{"C03", "redactable output cut to the precision after the markers are placed", "errbase/format_error.go", `\t\tsp\.Print\(redact\.RedactableBytes\(p\.finalBuf\.Bytes\(\)\)\)`, "\t\tout := p.finalBuf.Bytes()\n\t\tif prec, ok := p.Precision(); ok && prec >= 0 && prec < len(out) {\n\t\t\tout = out[:prec]\n\t\t}\n\t\tsp.Print(redact.RedactableBytes(out))", "R-REDACTABLE-OPS"},
 	{"C03", "redactable output printed through a local", "errbase/format_error.go", `\t\tsp\.Print\(redact\.RedactableBytes\(p\.finalBuf\.Bytes\(\)\)\)`, "\t\tout := p.finalBuf.Bytes()\n\t\tout = out[:]\n\t\tsp.Print(redact.RedactableBytes(out))", CleanVariant},
 	{"C20", "details attached to the status FromError prepared", "grpc/middleware/server.go", `\t\tst = status\.New\(code, strings\.ToValidUTF8\(err\.Error\(\), "\\uFFFD"\)\)\n`, "\t\tif code != codes.Unknown {\n\t\t\tst = status.New(code, strings.ToValidUTF8(err.Error(), \"\\uFFFD\"))\n\t\t}\n", "R-GRPC-FLOW"},
+	{"C12", "secondary error's safe details collected from its cause down", "secondary/with_secondary.go", `for err := e\.secondaryError; err != nil`, "for err := errbase.UnwrapOnce(e.secondaryError); err != nil", "R-HIDDEN-DETAILS"},
+	{"C07", "masked error's safe details collected up to a cap", "barriers/barriers.go", `\t\tsd := errbase\.GetSafeDetails\(err\)\n\t\tdetails = sd\.Fill\(details\)\n\t\}\n\tdetails = append`, "\t\tsd := errbase.GetSafeDetails(err)\n\t\tdetails = sd.Fill(details)\n\t\tif len(details) > 16 {\n\t\t\tbreak\n\t\t}\n\t}\n\tdetails = append", "R-HIDDEN-DETAILS"},
+	{"C12", "secondary error walked from a local", "secondary/with_secondary.go", `for err := e\.secondaryError; err != nil; err = errbase\.UnwrapOnce\(err\) \{`, "cur := e.secondaryError\n\tfor err := cur; err != nil; err = errbase.UnwrapOnce(err) {", CleanVariant},
 }
